@@ -245,6 +245,43 @@ def plan(path: str, rnd: random.Random, q: bool) -> list:
                 span = end - hs
                 add("field", hs, [span >> 16, (span >> 8) & 255, span & 255, 1] + list(newdata), zid)
                 tasks[-1] = tasks[-1][:4] + ([zid, "", pool[idx] if 0 <= idx < len(pool) else zid],) + tasks[-1][5:]
+    # a zone's transitions replaced, one at a time and with consistent framing, by the special encodings: the end-of-time marker,
+    # the start-of-time marker, "128 hours after the previous one", or a copy of the previous transition (an empty interval)
+    if pool_field is not None:
+        from pyoda_time.time_zones._precalculated_date_time_zone import _PrecalculatedDateTimeZone
+
+        for fid, hs, ds, end, zid in fields:
+            if fid != 1 or (q and rnd.random() > 0.06):
+                continue
+            data0 = raw[ds:end]
+            st = io.BytesIO(data0)
+            rd = _DateTimeZoneReader._ctor(st, tuple(pool))
+            spans = []
+            try:
+                orig = rd.read_zone_interval_transition
+
+                def logged(prev, orig=orig, st=st, spans=spans):
+                    a0 = st.tell()
+                    v0 = orig(prev)
+                    spans.append((a0, st.tell()))
+                    return v0
+
+                rd.read_zone_interval_transition = logged
+                rd.read_string()
+                if rd.read_byte() != 2:
+                    continue
+                _PrecalculatedDateTimeZone._read(rd, zid)
+            except Exception:  # noqa: BLE001 - this reader cannot be observed that way: no such faults
+                continue
+            picks = spans[-3:] + spans[:1]
+            for i, (a0, b0) in enumerate(picks):
+                prev_bytes = data0[spans[spans.index((a0, b0)) - 1][0]:spans[spans.index((a0, b0)) - 1][1]] if spans.index((a0, b0)) > 0 else b"\x00"
+                for repl in (b"\x01", b"\x00", b"\x80\x01", prev_bytes):
+                    if data0[a0:b0] == repl:
+                        continue
+                    newdata = data0[:a0] + repl + data0[b0:]
+                    span = end - hs
+                    add("field", hs, [span >> 16, (span >> 8) & 255, span & 255, 1] + list(newdata), zid)
     structured = tasks[n_plain:]
     del tasks[n_plain:]
     # the shortest prefixes (inside and just after the version word) are always kept too
